@@ -35,8 +35,18 @@ Fixpoint suffixes (s : text) : list text :=
 Definition ends_with (suf s : text) : bool := existsb (fun s' => teqb s' suf) (suffixes s).
 Definition contains (sub s : text) : bool := existsb (is_prefix sub) (suffixes s).
 
-(* ASCII lower-casing (str.lower / re.IGNORECASE restricted to ASCII) *)
-Definition lower_c (c : N) : N := if (65 <=? c) && (c <=? 90) then c + 32 else c.
+(* Case folding onto the ASCII lower-case letters, as re.IGNORECASE does it for an ASCII pattern
+   letter: A-Z, plus the non-ASCII code points that match an ASCII letter case-insensitively
+   (Gen/C20_LogKeys.v, regenerated from the live re engine and cross-checked against the str
+   case mappings: U+0130, U+0131 -> i, U+017F -> s, U+212A -> k). *)
+Fixpoint nassoc (c : N) (l : list (N * N)) : option N :=
+  match l with
+  | [] => None
+  | (x, a) :: r => if c =? x then Some a else nassoc c r
+  end.
+Definition lower_c (c : N) : N :=
+  if (65 <=? c) && (c <=? 90) then c + 32
+  else match nassoc c C20_casefold_extra with Some a => a | None => c end.
 Definition lower (s : text) : text := map lower_c s.
 
 (* ------------------------------------------------------------------ *)
@@ -444,23 +454,26 @@ Definition sanitize_core (sens : text -> bool) (parse : text -> option obj) (dig
 Definition sanitize_record (parse : text -> option obj) (digest : text -> text) (can : bool) (record : text) : text :=
   colorizer can (sanitize_core sensitive_code parse digest can record).
 
-(* format(): re.sub(r":\/\/(.*?)\@", <replacement>, msg) *)
-Fixpoint url_from (s : text) (skip : nat) : text :=
+(* re.sub(r":\/\/(.*?)\@", <replacement>, msg): format() and, for text messages,
+   GoogleLogger.write_event (a different replacement text) *)
+Fixpoint url_from_r (repl : text) (s : text) (skip : nat) : text :=
   match s with
   | [] => []
   | c :: r =>
       match skip with
-      | S n => url_from r n
+      | S n => url_from_r repl r n
       | O =>
           if is_prefix (T "://") s then
             match find_close 64 false (skipn 2 r) with
-            | Some n => C20_url_replacement ++ url_from r (3 + n)
-            | None => c :: url_from r 0
+            | Some n => repl ++ url_from_r repl r (3 + n)
+            | None => c :: url_from_r repl r 0
             end
-          else c :: url_from r 0
+          else c :: url_from_r repl r 0
       end
   end.
-Definition url_step (s : text) : text := url_from s 0.
+Definition url_step_r (repl : text) (s : text) : text := url_from_r repl s 0.
+Definition url_step (s : text) : text := url_step_r C20_url_replacement s.
+Definition gcl_url_step (s : text) : text := url_step_r C20_gcl_url_replacement s.
 
 Definition format_model (parse : text -> option obj) (digest : text -> text) (can : bool) (msg : text) : text :=
   url_step (sanitize_record parse digest can msg).
@@ -521,6 +534,29 @@ Definition c20_check_gcl (c : obj * list (text * text) * list (text * text)) : b
    | Some m => teqb m (dict_repr cleaned ++ T " *")
    | None => false
    end).
+(* GoogleLogger.write_event(text) (since e6db699): a text that is a JSON object is handled as
+   that dict; from any other text the URL user-info is removed.  [parsed] = json.loads(text) when
+   it is an object (oracle). *)
+Inductive gcl_out := GDict (cleaned : list (text * text)) | GText (message : text).
+Definition gcl_text_event (digest : text -> text) (parsed : option obj) (t : text) : gcl_out :=
+  match parsed with
+  | Some o => GDict (clean_record_model digest false o)
+  | None => GText (gcl_url_step t)
+  end.
+Definition gcl_message_is (fields : list (text * text)) (m : text) : bool :=
+  match lookup (T "message") fields with Some x => teqb x m | None => false end.
+(* stream "gclt": (text, parsed, digest table, string fields of the printed line) *)
+Definition c20_check_gclt (c : text * option obj * list (text * text) * list (text * text)) : bool :=
+  let '(t, parsed, dg, fields) := c in
+  match parsed with
+  | Some o => c20_check_gcl (o, dg, fields)
+  | None => match gcl_text_event (digest_of dg) None t with
+            | GText m => gcl_message_is fields m
+            | GDict _ => false
+            end
+  end.
+Definition c20_show_gclt (c : text * option obj * list (text * text) * list (text * text)) :=
+  let '(t, parsed, dg, fields) := c in gcl_text_event (digest_of dg) parsed t.
 Definition c20_show_gcl (c : obj * list (text * text) * list (text * text)) :=
   let '(o, dg, fields) := c in
   let cleaned := clean_record_model (digest_of dg) false o in (cleaned, dict_repr cleaned ++ T " *").
@@ -728,7 +764,8 @@ Inductive wmsg :=
 | WObj (o : obj)                               (* a dict message *)
 | WText (t : text) (parsed : option json).     (* a str message; json.loads(t) when t is JSON (oracle) *)
 
-(* same key in the table of seen warnings (a session never passes a dict and its own JSON text) *)
+(* same key in the table of seen warnings (a session never passes a dict and its own JSON text,
+   nor two different texts of one JSON object to GoogleLogger) *)
 Definition wmsg_eqb (a b : wmsg) : bool :=
   match a, b with
   | WObj o, WObj o' => json_eqb (JObj o) (JObj o')
@@ -736,12 +773,15 @@ Definition wmsg_eqb (a b : wmsg) : bool :=
   | _, _ => false
   end.
 
-(* what the report shows under "suppressed": add_level parses the text back when it is JSON,
-   GoogleLogger ([gcl]) passes the message object itself *)
+(* what the report shows under "suppressed": add_level parses the text back when it is JSON;
+   GoogleLogger ([gcl]) passes the message object itself, which is the parsed dict when the
+   text is a JSON object (e6db699), else the text with the URL user-info removed (a375704: the
+   report is a dict, and dicts are cleaned by key only) *)
 Definition wvalue (gcl : bool) (m : wmsg) : json :=
   match m with
   | WObj o => JObj o
-  | WText t p => if gcl then JStr t else match p with Some j => j | None => JStr t end
+  | WText t p => if gcl then match p with Some (JObj o) => JObj o | _ => JStr (gcl_url_step t) end
+                 else match p with Some j => j | None => JStr t end
   end.
 
 Fixpoint dec_digits (fuel : nat) (n : N) : text :=
@@ -815,7 +855,11 @@ Definition wrec_ok (digest : text -> text) (e : wmsg) (r : wrec) : bool :=
   | RFields fields =>
       match e with
       | WObj o => gcl_fields_ok (clean_record_model digest false o) fields
-      | WText t _ => match lookup (T "message") fields with Some m => teqb m t | None => false end
+      | WText t p =>
+          match gcl_text_event digest (match p with Some (JObj o) => Some o | _ => None end) t with
+          | GDict cleaned => gcl_fields_ok cleaned fields
+          | GText m => gcl_message_is fields m
+          end
       end
   end.
 
@@ -996,4 +1040,12 @@ Definition c20_dec_warn (s : string) : bool * bool * list wmsg * list (text * te
       | _, _ => (false, false, [], [], [RFields []])      (* undecodable: the check fails *)
       end
   | _ => (false, false, [], [], [RFields []])
+  end.
+
+(* GoogleLogger text messages: 'text' () | 'text' (o ...) *)
+Definition c20_dec_gclt (s : string) : text * option obj * list (text * text) * list (text * text) :=
+  match sx_parse s with
+  | [t; SL []; dg; fields] => (sx_text t, None, sx_pairs dg, sx_pairs fields)
+  | [t; o; dg; fields] => (sx_text t, Some (sx_obj o), sx_pairs dg, sx_pairs fields)
+  | _ => ([], None, [], [])
   end.
